@@ -73,3 +73,30 @@ func TestZZC36GatewayWrappedTimeout(t *testing.T) {
 
 	as.Equal(http.StatusGatewayTimeout, resp.StatusCode, "a timed-out dial must be answered 504")
 }
+
+// Observation (NOTES.md, not a failing test): a tunnel stream that is closed by the far side before any response byte
+// reaches the error handler as io.EOF, for which the handler writes nothing: the caller gets an implicit 200, empty body.
+func TestZZC36ObservationEOFIsSilent(t *testing.T) {
+	as := require.New(t)
+
+	udpPort, _, mockS, done := setupGateway(t, as, nil)
+	defer done()
+
+	testHost := "hello"
+	c1, c2 := net.Pipe()
+	go func() {
+		buf := make([]byte, 4096)
+		c2.Read(buf) // take (part of) the request, then hang up without answering
+		c2.Close()
+	}()
+
+	mockS.On("Identity").Return(&protocol.Node{Id: chord.Random(), Address: "127.0.0.1:1234"})
+	mockS.On("DialClient", mock.Anything, mock.Anything).Return(c1, nil)
+
+	c := getH3Client(testHost, udpPort)
+	resp, err := c.Get(fmt.Sprintf("https://%s.%s", testHost, testDomain))
+	as.NoError(err)
+	defer resp.Body.Close()
+	b, _ := io.ReadAll(resp.Body)
+	t.Logf("tunnel hung up before responding: caller sees status %d, %d body bytes", resp.StatusCode, len(b))
+}
